@@ -451,7 +451,8 @@ func main() {
 	render := func(n ast.Node) string {
 		var b bytes.Buffer
 		printer.Fprint(&b, fset, n)
-		return strings.Join(strings.Fields(b.String()), " ")
+		// `any` is an alias of the empty interface: one spelling for both
+		return strings.ReplaceAll(strings.Join(strings.Fields(b.String()), " "), "interface{}", "any")
 	}
 	fp := func(s string) string {
 		h := fnv.New64a()
